@@ -345,6 +345,9 @@ def run(R):
                      "blanks and tested empty")
     R.rule("C16-R3", "token discipline: the unified grammar recognises keywords only through the case-insensitive helper and skips "
                      "blanks only through the comment-aware helper")
+    R.rule("C16-R4", "keyword case never reaches the tree: the text matched by the case-insensitive keyword helper (whose letter case is "
+                     "the user's) is only tested or skipped; it never flows into a value a parser returns - parsers put canonical "
+                     "literals into the syntax tree")
     ents = [b for b in (prog.one(e, crate="kolibrie") for e in ENTRIES)]
     for e, b in zip(ENTRIES, ents):
         R.anchor("C16-R1", e, b)
@@ -356,6 +359,7 @@ def run(R):
     certify(R, prog, bodies, "C16-R1")
     r2(R)
     r3(R, bodies)
+    r4(R, bodies)
 
 
 def certify(R, prog, bodies, rule):
@@ -487,3 +491,176 @@ def r3(R, bodies):
                     R.ob("C16-R3", "kw:%s:%s" % (b.short, lits), "%s recognises alphabetic keywords through sparql_keyword (case-insensitive, "
                          "token boundary), not nom's tag(%s)" % (b.short, lits), False, where=b.where(c.ln))
     R.floor("C16-R3", "bodies of the unified grammar", n, 60)
+
+
+# ---------------------------------------------------------------- R4 keyword text never reaches the tree
+
+_TRANSPARENT = {"branch", "ok", "unwrap", "expect", "unwrap_or", "unwrap_or_else", "unwrap_or_default", "map_err", "clone", "cloned", "copied",
+                "from_residual", "into", "from", "as_ref", "take", "ok_or", "ok_or_else", "or", "or_else", "filter", "find", "next", "flatten",
+                "iter", "into_iter", "deref", "unwrap_unchecked"}
+_TESTS = {"is_ok", "is_err", "is_some", "is_none", "is_ok_and", "is_some_and"}
+_CLOSURE_CONSUMERS = {"map", "and_then", "map_or", "map_or_else", "is_ok_and", "is_some_and", "inspect", "filter"}
+_CLOSURE_PRODUCERS = {"find_map", "map", "filter_map", "and_then", "flat_map", "or_else", "then", "map_or_else", "unwrap_or_else"}
+
+
+def _tuple_component(pl):
+    """index of the first tuple-level field selected by a projection (variant payload `.0` of Ok/Some/Continue is skipped)"""
+    ps = pl["p"]
+    i = 0
+    while i < len(ps):
+        e = ps[i]
+        if e["k"] == "downcast":
+            # the variant's payload field follows
+            i += 2
+            continue
+        if e["k"] == "field":
+            if e.get("adt"):
+                i += 1
+                continue
+            return e.get("i")
+        i += 1
+    return None
+
+
+def keyword_flows(prog, b, carriers_in, sources, closure_returns):
+    """within one body: (matched-text locals with site, escape sites, returns_carrier)"""
+    carriers = set(carriers_in)
+    for c in b.calls():
+        if c.key in sources and not c.dest["p"]:
+            carriers.add(c.dest["l"])
+    matched, escapes = {}, []
+    returns = False
+    work = list(carriers)
+    seen = set()
+    while work:
+        l = work.pop()
+        if l in seen:
+            continue
+        seen.add(l)
+        if l == 0:
+            returns = True
+        for (bb, where, kind, pl) in b.uses().get(l, []):
+            if pl is None or kind in ("drop", "write"):
+                continue
+            if any(e["k"] == "downcast" and e.get("n") in ("Break", "Err", "None") for e in pl["p"]):
+                continue            # the error side carries no matched text
+            comp = _tuple_component(pl)
+            if where[0] == "st":
+                st = b.blocks[bb]["st"][where[1]]
+                rv = st["rv"]
+                dst = st["pl"]
+                if rv["rv"] == "discriminant":
+                    continue
+                if comp == 0:
+                    continue
+                if comp is not None:
+                    matched.setdefault(dst["l"], st.get("ln"))
+                    continue
+                # whole carrier copied / moved / borrowed / wrapped into an aggregate
+                work.append(dst["l"])
+            else:
+                t = b.blocks[bb]["term"]
+                if t["t"] == "switch" or t["t"] == "drop":
+                    continue
+                if t["t"] != "call":
+                    continue
+                c = next(x for x in b.calls() if x.bb == bb)
+                nm = c.name()
+                if comp == 0:
+                    continue
+                if comp is not None:
+                    matched.setdefault(c.dest["l"], c.ln)
+                    continue
+                if nm in _TESTS:
+                    continue
+                argi = [i for i, a in enumerate(c.args) if (F.op_place(a) or {}).get("l") == l]
+                if nm in _CLOSURE_CONSUMERS and argi == [0] and len(c.args) >= 2:
+                    from c19 import closure_family_calls
+                    key, inner = closure_family_calls(prog, b, c.args[-1])
+                    cl = prog.bodies.get(key) if key else None
+                    if cl is not None:
+                        m2, e2, r2_ = keyword_flows(prog, cl, {2}, sources, closure_returns)
+                        if m2:
+                            # the closure reads the matched text: whatever it returns may carry it
+                            matched.setdefault(c.dest["l"], c.ln)
+                        escapes.extend(e2)
+                        if r2_ and not c.dest["p"]:
+                            work.append(c.dest["l"])
+                        continue
+                if nm in _TRANSPARENT and not c.dest["p"]:
+                    work.append(c.dest["l"])
+                    continue
+                escapes.append((b, c))
+    # closures created here that return a carrier: the call they are passed to yields a carrier
+    for c in b.calls():
+        if c.name() in _CLOSURE_PRODUCERS and len(c.args) >= 2 and not c.dest["p"] and c.dest["l"] not in seen:
+            from c19 import closure_family_calls
+            key, inner = closure_family_calls(prog, b, c.args[-1])
+            if key and closure_returns.get(key):
+                m3, e3, r3_ = keyword_flows(prog, b, {c.dest["l"]}, sources, closure_returns)
+                matched.update({k: v for k, v in m3.items() if k not in matched})
+                escapes.extend(x for x in e3 if x not in escapes)
+                returns = returns or r3_
+    return matched, escapes, returns
+
+
+def r4(R, bodies):
+    prog = R.prog
+    kw = prog.one("parser::sparql_keyword", crate="kolibrie")
+    R.anchor("C16-R4", "parser::sparql_keyword", kw)
+    if kw is None:
+        return
+    # the helper itself must be the case-insensitive matcher
+    R.ob("C16-R4", "helper", "sparql_keyword matches with tag_no_case", any(c.name() == "tag_no_case" for c in kw.calls()), where=kw.where())
+    sources = {kw.key}
+    closure_returns = {}
+    scope = [b for b in prog.bodies.values() if b.crate == "kolibrie" and b.file.endswith("parser.rs") and b.key != kw.key
+             and "::tests::" not in b.key]
+    # fixpoint over wrappers (functions / closures that return the helper's result unchanged)
+    for _ in range(6):
+        changed = False
+        for b in scope:
+            if not any(c.key in sources for c in b.calls()) and not any(closure_returns.get(k.key) for k in prog.closures_of(b.key, recursive=False)):
+                continue
+            m, e, ret = keyword_flows(prog, b, set(), sources, closure_returns)
+            if ret:
+                if b.is_closure and not closure_returns.get(b.key):
+                    closure_returns[b.key] = True
+                    changed = True
+                elif not b.is_closure and b.key not in sources:
+                    sources.add(b.key)
+                    changed = True
+        if not changed:
+            break
+    nsites = 0
+    for b in sorted(scope, key=lambda x: x.key):
+        if b.is_closure:
+            continue
+        fam = prog.family(b.key)
+        if not any(c.key in sources for x in fam for c in x.calls()):
+            continue
+        R.saw(b)
+        allm, alle = [], []
+        for x in fam:
+            nsites += sum(1 for c in x.calls() if c.key in sources)
+            m, e, ret = keyword_flows(prog, x, set(), sources, closure_returns)
+            allm.extend((x, l, ln) for l, ln in m.items())
+            alle.extend(e)
+        for x, c in alle:
+            R.ob("C16-R4", "escape:%s:%s" % (b.short, c.name()), "%s hands a keyword match (remainder + matched text) only to tests, `?`, remainder "
+                 "reads or closures that read the remainder" % b.short, False, where=x.where(c.ln),
+                 detail="passed whole to `%s`: the matched text (in the user's letter case) may end up in the syntax tree" % c.name())
+        if allm:
+            # does the matched text reach what the parser returns?
+            T = Taint(prog, b)
+            for x, l, ln in allm:
+                T.seed(x, l, ("kwtext", ln))
+            T.run()
+            hit = [lab for lab in T.get(b, 0) if isinstance(lab, tuple) and lab[0] == "kwtext"]
+            R.ob("C16-R4", "tree:%s" % b.short, "%s reads the matched keyword text but does not return it" % b.short, not hit,
+                 where=b.where(hit[0][1] if hit else None),
+                 detail=None if not hit else "the returned tree contains the keyword as the user typed it: `select (sum(?x) as ?t)` and the "
+                 "upper-case spelling parse to different trees")
+        else:
+            R.ob("C16-R4", "clean:%s" % b.short, "%s never reads the text matched by a keyword" % b.short, True, where=b.where())
+    R.floor("C16-R4", "keyword match sites", nsites, 40)
